@@ -172,6 +172,12 @@ def systematic():
             bases.append((kind, pre + [['feed', 'msg'], ['tail_disc', order], ['feed', 'msg'], ['send', 'ok']]))
         for mode in ('ok', 'fail'):
             bases.append((kind, pre + [['qsend', 'ok'], ['qsend', mode], ['feed', 'msg'], ['qsend', 'ok'], ['send', 'ok']]))
+    # cancellation of the attempt at each of its awaits, including the wait_closed() inside the disconnect() that its
+    # own CancelledError handler runs (second cancel): CLOSED must still be reported
+    for kind in ('out', 'resp'):
+        bases += [(kind, [['create'], ['conn_ok', 'hang'], ['cancel'], ['cancel'], ['send', 'ok']]),
+                  (kind, [['create'], ['conn_ok', 'fail'], ['cancel'], ['cancel']]),
+                  (kind, [['create'], ['conn_ok', 'hang'], ['send_timeout'], ['cancel'], ['cancel']])]
     for kind, acts in bases:
         for obf in (False, True):
             if kind == 'server' and obf:
